@@ -94,7 +94,7 @@ type TW struct {
 	Routes     []int    // routes offered
 	Senders    []int    // user indices that may send
 	Receivers  []int    // receiver codes offered
-	Amounts    []int    // 0 = one unit, 1 = the whole balance
+	Amounts    []int    // 0 = one unit, 1 = the whole balance, 2 = the literal 2^256-1 sentinel in a raw MsgSendPacket
 	Timeouts   []int    // timeout kinds offered
 	Bases      []string // base denominations that may be sent (nil = all)
 	Kind       int      // 0 any denom, 1 natives only, 2 vouchers only
